@@ -571,3 +571,29 @@ func FreeEnv(rng *Rng) (string, Cfg) {
 	}
 	return name, c
 }
+
+// FreePeerPause: the package's own tunable TConnReadTimeout is small (1 s) or at its default;
+// the peer does not read at all for 1.6 s — longer than the small limit — while more accepted
+// data is pending than the (64 KiB) socket buffers hold, so the writer sits in write(2); then
+// the peer drains everything to EOF: it must still receive every accepted packet, in order, framed.
+func FreePeerPause(rng *Rng) (string, Cfg) {
+	c := base(rng, 0)
+	var g idGen
+	k := rng.Range(200, 400)
+	c.Ocap = 1000
+	c.Senders = [][]PktSpec{g.pkts(rng, k, []int{2000, 4000, 8000})}
+	c.Closers = []bool{true}
+	c.HasReader = false // an idle peer would (legitimately) trip the READ time-out of a reader
+	c.Input = nil
+	c.SmallBuf = 1
+	c.PeerRead = 5
+	c.ReadTimeout = 1
+	return "free-peer-pause-limit1s", c
+}
+
+// FreePeerPauseDefault: the same with the idle limit left at its default.
+func FreePeerPauseDefault(rng *Rng) (string, Cfg) {
+	_, c := FreePeerPause(rng)
+	c.ReadTimeout = 0
+	return "free-peer-pause-default-limit", c
+}
